@@ -20,6 +20,7 @@ import (
 	"fmt"
 	"strconv"
 	"strings"
+	"unicode/utf16"
 
 	"github.com/XiaoMi/Gaea/util"
 	"github.com/XiaoMi/Gaea/util/hack"
@@ -235,27 +236,27 @@ func parseHashSliceValue(str string) (int, error) {
 
 // FindForKey return MycatPartitionStringShard calculated result
 func (m *MycatPartitionStringShard) FindForKey(key interface{}) (int, error) {
-	keyStr := GetString(key)
+	// Mycat works on a Java String: lengths and positions count UTF-16 code units.
+	input := utf16.Encode([]rune(GetString(key)))
 	var start int
 	if m.hashSliceStart >= 0 {
 		start = m.hashSliceStart
 	} else {
-		start = len(keyStr) + m.hashSliceStart
+		start = len(input) + m.hashSliceStart
 	}
 
 	var end int
 	if m.hashSliceEnd > 0 {
 		end = m.hashSliceEnd
 	} else {
-		end = len(keyStr) + m.hashSliceEnd
+		end = len(input) + m.hashSliceEnd
 	}
-	h := stringHash(keyStr, start, end)
+	h := stringHash(input, start, end)
 	return m.segment[int(h)&andValue], nil
 }
 
-// copied from mycat
-func stringHash(s string, start, end int) int64 {
-	input := []rune(s)
+// copied from mycat; input holds the UTF-16 code units of the key (String.charAt)
+func stringHash(input []uint16, start, end int) int64 {
 	if start < 0 {
 		start = 0
 	}
